@@ -381,6 +381,14 @@ Definition run (numeric : bool) (m : method) (r : req) : outcome :=
     end
   end.
 
+(* _shared_macros.j2 response_method: the keyword arguments of the emitted getattr(session, method)(url, ...) call.
+   [run] above is the request side of unary AND server-streaming methods alike: the streaming flag only adds
+   stream=True on the synchronous transport (and changes how the reply is consumed); whether data=body is passed
+   depends on the first binding's body alone. *)
+Definition response_kwargs (body : bool) (is_async streaming : bool) : list string :=
+  (["timeout"; "headers"; "params"] ++ (if body then ["data"] else [])
+   ++ (if negb is_async && streaming then ["stream"] else []))%list.
+
 (* ------------------------------------------------------------------ the specification side (google.api.http) *)
 (* a path variable matches ITS OWN sub-template *)
 Definition var_matches (r : req) (t : utok) : bool :=
